@@ -1143,6 +1143,21 @@ func (x *g) firstPacket(cid string) ([]byte, string) {
 		x.willN++
 		p.WillMessage = payload(srcWill+1, 900+x.willN, 8+r.Intn(30))
 	}
+	if r.Bool(1, 6) {
+		// a CONNECT whose remaining length lies just below the one-byte limit
+		// of its encoding: whatever the broker adds when it re-encodes it (a
+		// generated client identifier) pushes it across
+		p.WillFlag = true
+		if p.WillTopic == "" {
+			p.WillTopic = "c11/will"
+		}
+		x.willN++
+		base := len(refmqtt.Encode(&refmqtt.Packet{Type: refmqtt.CONNECT, ClientID: p.ClientID, CleanSession: p.CleanSession, KeepAlive: p.KeepAlive, ProtoName: p.ProtoName, ProtoLevel: p.ProtoLevel, WillFlag: true, WillQoS: p.WillQoS, WillRetain: p.WillRetain, WillTopic: p.WillTopic})) - 2
+		target := 108 + r.Intn(20)
+		if n := target - base; n >= 8 {
+			p.WillMessage = payload(srcWill+1, 900+x.willN, n)
+		}
+	}
 	switch r.Intn(4) {
 	case 0:
 		p.HasUser, p.HasPass = true, true
@@ -1732,6 +1747,9 @@ func teardownScript(x *g) interface{} {
 		x.sc.Knobs.CloseServer = x.pickP(1, 6)
 		mk := func(ci int, ka int, clean bool, will bool) Op {
 			op := Op{K: "connect", CID: fmt.Sprintf("t%d", ci), Clean: clean, KA: ka}
+			if clean && x.force == nil && r.Bool(1, 5) {
+				op.CID = "" // anonymous: the broker generates an identifier
+			}
 			if will {
 				op.Will = &Will{Topic: fmt.Sprintf("will/t%d", ci), QoS: byte(r.Intn(3)), Size: 8 + r.Intn(40)}
 			}
